@@ -21,6 +21,7 @@ def _configs(tier):
                dict(name="extraction-net", part="extraction", gs=True, method=4, crop="Maize"),
                dict(name="potential", part="potential", gs=True, method=0, crop="Maize"),
                dict(name="potential-net-aged", part="potential", gs=True, method=4, crop="Wheat", aged=True),
+               dict(name="potential-submerged-at-lag", part="potential", gs=True, method=0, crop="Maize", submerged=3),
                dict(name="off-season", part="potential", gs=False, method=1, crop="Maize"),
                dict(name="extraction-ETadj0", part="extraction", gs=True, method=0, crop="Maize", etadj=0)]
     if tier != "quick":
@@ -89,7 +90,7 @@ def h_tr(ctx, cfg):
         ic.ccx_w = ctx.real("ccx_w", 0, float(crop.CCx)); ic.ccx_w_ns = ctx.real("ccx_w_ns", 0, float(crop.CCx))
         ic.canopy_cover = ctx.real("canopy_cover", 0, float(crop.CCx)); ic.canopy_cover_ns = ctx.real("canopy_cover_ns", 0, float(crop.CCx))
         ic.surface_storage = ctx.real("surface_storage", 0, 500)
-        ic.day_submerged = 2 if cfg.get("aged", False) else 0      # LagAer = 3 days: one more ponded day reaches the lag
+        ic.day_submerged = cfg.get("submerged", 2 if cfg.get("aged", False) else 0)      # LagAer = 3 days (INV: 0 <= day_submerged <= LagAer)
         et0 = ctx.real("et0", 0.1, 20)
         conc = ctx.real("co2", 250, 2500)
     ccmax = 1.72 * float(crop.CCx) - float(crop.CCx) ** 2 + 0.3 * float(crop.CCx) ** 3
